@@ -241,6 +241,9 @@ impl Script {
         }
         names
     }
+    pub fn opens_input(&self, name: &str) -> bool {
+        self.ops.iter().any(|op| matches!(op, Opn::OpenReader { path: PathSpec::In(n) } if n == name))
+    }
     /// The script without operation `index`, unless a later operation uses its handle.
     pub fn without(&self, index: usize) -> Option<Script> {
         if self.ops.iter().any(|op| op.references() == Some(index)) {
